@@ -350,6 +350,72 @@ def s7(prog: Program, chk: Check) -> None:
             f"idiom(s)", len(units) >= 40, "" if len(units) >= 40 else "the module shrank")
 
 
+def numeric_option_tests(prog: Program):
+    """[(unit, test node, parameter)] for truthiness tests (`if p:`, `x if p else y`, `not p`,
+    `p and ..`) of a parameter that holds a number: annotated int / float, or handed to
+    int() / float() in the same function.  Zero is a number; `is None` is the test for
+    'not given'."""
+    out = []
+    for u in prog.units.values():
+        if isinstance(u.node, ast.Lambda):
+            continue
+        a = u.node.args
+        numeric = set()
+        for x in list(a.args) + list(a.kwonlyargs):
+            ann = norm(x.annotation) if x.annotation is not None else ""
+            if ("int" in ann or "float" in ann) and "bool" not in ann and "ndarray" not in ann:
+                numeric.add(x.arg)
+        for c in walk_local(u.node):
+            if isinstance(c, ast.Call) and isinstance(c.func, ast.Name) and c.func.id in ("int", "float") \
+                    and len(c.args) == 1 and isinstance(c.args[0], ast.Name) and c.args[0].id in u.params:
+                numeric.add(c.args[0].id)
+        if not numeric:
+            continue
+        # a parameter that is re-bound before the test is judged by its new value: skip those
+        rebound = {t.id for st in walk_local(u.node) if isinstance(st, ast.Assign)
+                   for t in st.targets if isinstance(t, ast.Name)}
+        for x in walk_local(u.node):
+            tests = []
+            if isinstance(x, (ast.If, ast.IfExp, ast.While)):
+                tests.append(x.test)
+            elif isinstance(x, ast.Assert):
+                tests.append(x.test)
+            for t in tests:
+                stack = [t]
+                while stack:
+                    y = stack.pop()
+                    if isinstance(y, ast.UnaryOp) and isinstance(y.op, ast.Not):
+                        stack.append(y.operand)
+                    elif isinstance(y, ast.BoolOp):
+                        stack.extend(y.values)
+                    elif isinstance(y, ast.Name) and y.id in numeric and y.id not in rebound:
+                        out.append((u, x, y.id))
+    return out
+
+
+def s8(prog: Program, chk: Check) -> None:
+    chk.rule("S8", "both methods are run with the parameters the caller gave: a numeric option "
+             "(subdiv_limit, dkmax, tolerances, step counts) is tested for 'not given' with "
+             "`is None`, never for truthiness - 0 is a legitimate value (subdiv_limit = 0: one "
+             "quadrature panel) and a truthiness test silently turns it into the default, so "
+             "TEMPO (which reads the parsed parameters) and compute_dynamics (which gets the "
+             "caller's value) integrate the system Liouvillian differently", floor=1)
+    hits = numeric_option_tests(prog)
+    for (u, node, pname) in hits:
+        chk.saw(u)
+        chk.add("S8", u, f"truthiness test of numeric parameter `{pname}`: {norm(node)[:60]}", False,
+                f"`{pname}` holds a number: the value 0 takes the 'not given' branch", node)
+    n_num = 0
+    for u in prog.units.values():
+        if not isinstance(u.node, ast.Lambda):
+            n_num += sum(1 for x in list(u.node.args.args) + list(u.node.args.kwonlyargs)
+                         if x.annotation is not None and ("int" in norm(x.annotation)
+                                                          or "float" in norm(x.annotation)))
+    chk.add("S8", prog.module("tempo"), f"{n_num} numeric parameters in the package, {len(hits)} "
+            f"tested for truthiness", n_num >= 60,
+            "" if n_num >= 60 else "fewer annotated numeric parameters than confirmed by hand")
+
+
 def run(prog: Program, chk: Check) -> None:
     chk.explanation = (
         "Decides that TEMPO and PT-TEMPO + compute_dynamics are wired to the same inputs at the "
@@ -367,3 +433,4 @@ def run(prog: Program, chk: Check) -> None:
     chk.call(s5, prog, chk)
     chk.call(s6, prog, chk)
     chk.call(s7, prog, chk)
+    chk.call(s8, prog, chk)
